@@ -81,8 +81,8 @@ func init() {
 		Families: func(c *mon.Config) []mon.Family {
 			return []mon.Family{
 				{Name: "scalar-positions", N: len(c20Scalars) * 8, Run: c20ScalarPositions},
-				{Name: "named", N: c.Pick(50, 2000), Run: c20NamedTypes},
-				{Name: "random-types", N: c.Pick(20000, 600000), Run: c20Random},
+				{Name: "named", N: c.Pick(200, 20000), Run: c20NamedTypes},
+				{Name: "random-types", N: c.Pick(40000, 2500000), Run: c20Random},
 			}
 		},
 	})
